@@ -3,7 +3,12 @@ import OFCore.Drv.Util
 /-!
 Line protocol handler for the `doc` domain (C12).
 
-    doc build <sys> <default period | -> <document>   ->  OK <entities> <store> | SITUATION | ERR | UNMODELLED | BAD
+    doc build    <sys> <default period | -> <document>   ->  OK <entities> <store> | SITUATION | ERR | UNMODELLED | BAD
+    doc entities <sys> <default period | -> <document>   (`build_from_entities` called directly)
+    doc manual   <sys> <default period | -> <document>   (the builder's steps called one by one; same model)
+    doc default  <sys> <count>                           (`build_default_simulation`)
+    doc join     <sys> {persons:[id…], groups:[{kind, ids:[id…], of:[id…], roles:[key|index…]}]}
+                                                         (`declare_person_entity` / `declare_entity` / `join_with_persons`)
 
 `<sys>` and `<document>` are trees in a blank-free prefix notation (every item is self-delimiting):
 
@@ -171,18 +176,51 @@ def showSim : R Sim → String
   | .error .other => "ERR"
   | .error .unmodelled => "UNMODELLED"
 
+/-- an id as the builder holds it: `str(id)` -/
+def idText : Doc → Option String
+  | .str s => some s
+  | .int i => some (toString i)
+  | _ => none
+
+def readRoleRef : Doc → Option RoleRef
+  | .str s => some (.key s)
+  | .int i => if 0 ≤ i then some (.idx i.toNat) else none
+  | _ => none
+
+def readJoined (d : Doc) : Option Joined := do
+  let kvs ← d.asObj?
+  pure ⟨← fStr kvs "kind", ← (← fArr kvs "ids").mapM idText, ← (← fArr kvs "of").mapM idText,
+    ← (← fArr kvs "roles").mapM readRoleRef⟩
+
+/-- `doc build|entities|manual` : the route decides which entry point reads the document -/
+def runRoute (route : String) (sys : Sys) (dp : Option String) (doc : Doc) : String :=
+  if route = "build" then showSim (buildFromDict sys dp stdSetInput doc)
+  else showSim (buildFromEntitiesDoc sys dp stdSetInput doc)
+
 def handleDoc (args : List String) : String :=
   match args with
-  | ["build", sysT, dpT, docT] =>
+  | [route, sysT, dpT, docT] =>
+    if route ≠ "build" ∧ route ≠ "entities" ∧ route ≠ "manual" then "BAD" else
     match (readTree sysT).bind readSys, readTree docT with
     | some sys, some doc =>
-      if dpT = "-" then showSim (buildFromDict sys none stdSetInput doc) else
+      if dpT = "-" then runRoute route sys none doc else
       match (unhex dpT).map String.ofList with
       | none => "BAD"
       | some raw =>
         match setDefaultPeriod raw with
         | .error _ => "ERR"
-        | .ok dp => showSim (buildFromDict sys (some dp) stdSetInput doc)
+        | .ok dp => runRoute route sys (some dp) doc
+    | _, _ => "BAD"
+  | ["default", sysT, countT] =>
+    match (readTree sysT).bind readSys, countT.toNat? with
+    | some sys, some count => showSim (.ok (buildDefault sys count))
+    | _, _ => "BAD"
+  | ["join", sysT, docT] =>
+    match (readTree sysT).bind readSys, (readTree docT).bind Doc.asObj? with
+    | some sys, some kvs =>
+      match (fArr kvs "persons").bind (·.mapM idText), (fArr kvs "groups").bind (·.mapM readJoined) with
+      | some pids, some js => showSim (buildJoined sys pids js)
+      | _, _ => "BAD"
     | _, _ => "BAD"
   | _ => "BAD"
 
